@@ -32,7 +32,7 @@ __all__ = ()
 PATTERNS = ["*.out"]
 
 
-@document_load_one("Orca output", ["atcoords", "atnums", "energy", "moments", "extra"])
+@document_load_one("Orca output", [], ["atcoords", "atnums", "energy", "moments", "extra"])
 def load_one(lit: LineIterator) -> dict:
     """Do not edit this docstring. It will be overwritten."""
     result = {}
